@@ -7,12 +7,13 @@ EXTENDS PT_Dialect, Json, IOUtils
 Events == ndJsonDeserialize(IOEnv.TRACE_FILE)
 VARIABLE i
 Init == i = 1
-Conventions == {"identifier-quote", "string-as-identifier", "placeholder", "boolean", "array", "interval", "pagination", "groupby-alias"}
+Conventions == {"identifier-quote", "string-as-identifier", "placeholder", "boolean", "array", "interval", "pagination", "groupby-alias", "string-escape"}
 Slim(toks) == [k \in DOMAIN toks |-> [t |-> toks[k].t, v |-> toks[k].v]]
 Verdict(e) ==
     LET R == DOMAIN e.r
         one == {<<e.r[k].d, e.r[k].mode, x>> : k \in R, x \in Conventions} \cap
-               UNION {{<<e.r[k].d, e.r[k].mode, x>> : x \in Broken(e.r[k].toks, e.r[k].d, e.boolmark, {e.aliases[a] : a \in DOMAIN e.aliases})} : k \in R}
+               UNION {{<<e.r[k].d, e.r[k].mode, x>> : x \in Broken(e.r[k].toks, e.r[k].d, e.boolmark, {e.aliases[a] : a \in DOMAIN e.aliases})
+                                                         \cup StringBroken(e.r[k].toks, {e.strings[a] : a \in DOMAIN e.strings})} : k \in R}
         mixed == {<<e.r[k].d, "mixed-differs-from-native">> :
                      k \in {x \in R : e.r[x].mode = "mixed" /\ \E y \in R : e.r[y].d = e.r[x].d /\ e.r[y].mode = "native" /\ e.r[y].toks # e.r[x].toks}}
         pairs == IF ~e.neutral THEN {}
